@@ -262,7 +262,7 @@ func checkC04(w *World, r *Report) {
 			construct := "reader of " + tn + ".content"
 			if why := allowed(fn); why != "" {
 				r.ok("R04.1", ssaName(fn), construct, w.posOf(fn.Pos()), why, false)
-			} else if why, ok := contentReaderExceptions[ssaName(fn)]; ok {
+			} else if why, ok := w.exceptionForPart(fn, contentReaderExceptions); ok {
 				r.except("R04.1", ssaName(fn), construct, w.posOf(fn.Pos()), why)
 			} else {
 				r.bad("R04.1", ssaName(fn), construct, w.posOf(fn.Pos()), "a function other than the node's renderer reads the stored literal text: it can re-interpret or transform text that must be emitted verbatim")
@@ -506,4 +506,42 @@ func (w *World) inertParserHelper(fd *ast.FuncDecl, seen map[*ast.FuncDecl]bool)
 		return true
 	})
 	return why
+}
+
+// exceptionForPart: the exception table entry for fn, or for the single function that fn is an
+// unexported part of (every in-package caller chain of fn ends in that function, depth <= 3).
+func (w *World) exceptionForPart(fn *ssa.Function, table map[string]string) (string, bool) {
+	if why, ok := table[ssaName(fn)]; ok {
+		return why, true
+	}
+	var root func(f *ssa.Function, depth int, seen map[*ssa.Function]bool) string
+	root = func(f *ssa.Function, depth int, seen map[*ssa.Function]bool) string {
+		if _, ok := table[ssaName(f)]; ok {
+			return ssaName(f)
+		}
+		if depth > 3 || seen[f] || f.Object() == nil || f.Object().Exported() {
+			return ""
+		}
+		seen[f] = true
+		node := w.callgraph().Nodes[f]
+		if node == nil || len(node.In) == 0 {
+			return ""
+		}
+		res := ""
+		for _, e := range node.In {
+			if e.Caller.Func.Package() != f.Package() {
+				return ""
+			}
+			r := root(e.Caller.Func, depth+1, seen)
+			if r == "" || (res != "" && res != r) {
+				return ""
+			}
+			res = r
+		}
+		return res
+	}
+	if r := root(fn, 0, map[*ssa.Function]bool{}); r != "" {
+		return table[r] + " (in " + ssaName(fn) + ", a part of " + r + ")", true
+	}
+	return "", false
 }
